@@ -1,10 +1,17 @@
 #!/bin/bash
-# usage: try_seed.sh <patch.diff> <prop> [<prop> ...]  : apply to /repo, run the quick checks, undo
+# usage: try_seed.sh <patch.diff> <prop> [<prop> ...]  : apply to /repo, run the quick checks, undo.
+# Holds the repo lock (see build() in /verif/check) exclusively for the whole time, so background
+# checks started meanwhile wait instead of compiling the seeded tree. Evidence goes to a scratch
+# directory (DVERIF_EVIDENCE_DIR), not to /verif/evidence.
 P=$1; shift
+exec 9>/tmp/dverif-repo.lock
+flock -x 9
+export DVERIF_LOCK_HELD=1
+export DVERIF_EVIDENCE_DIR=/tmp/seed-evidence
+mkdir -p $DVERIF_EVIDENCE_DIR
 cd /repo && git apply $P || { echo "patch does not apply"; exit 2; }
 cd /verif
 for c in "$@"; do
   ./check $c --tier quick 2>&1 | grep -E "^\[C|VIOLATION|signature=|RUN-UNUS|BUILD-FAILED" | cut -c1-260 | head -8
 done
 cd /repo && git checkout -- . && git status --short | head -3
-# restore evidence of the unchanged tree later (the driver rewrites it): caller re-runs checks after seeding campaigns
